@@ -249,8 +249,31 @@ let fmt_sout = function
   | SOBool b -> if b then "1" else "0"
   | SOList l -> fmt_pairs l
 
+(* ---------- builder / policy (C17) ---------- *)
+let fmt_policy (c : ucfg) : string =
+  let ((cap, ttl), tti) = policy c in
+  Printf.sprintf "%s:%s:%s" (opt_n cap) (opt_n ttl) (opt_n tti)
+
+let run_config_op toks : string =
+  match toks with
+  | "B" :: _cache :: kvs ->
+    let kv = List.map (fun s -> match String.index_opt s '=' with
+        | Some i -> (String.sub s 0 i, String.sub s (i + 1) (String.length s - i - 1))
+        | None -> (s, "")) kvs in
+    let b = { b_cap = opt_of_string (assoc_def "cap" kv "none");
+              b_ic = opt_of_string (assoc_def "ic" kv "none");
+              b_ttl = opt_of_string (assoc_def "ttl" kv "none");
+              b_tti = opt_of_string (assoc_def "tti" kv "none");
+              b_wf = weigher_of (parse_weigher (assoc_def "weigher" kv "none")) } in
+    (match build b (fun k -> k) with Ok c -> fmt_policy c | Err e -> "ERR " ^ string_of_err e)
+  | [ "N"; _cache; n ] ->
+    (match new_cache (n_of_string n) (fun k -> k) with Ok c -> fmt_policy c | Err e -> "ERR " ^ string_of_err e)
+  | [ "E"; _cache; _n ] -> "same"     (* C17_new_is_builder: definitional in the model *)
+  | _ -> failwith "bad config op"
+
 type mode =
   | MNone
+  | MConfig
   | MSync of scfg * srun
   | MSketch of sketch
   | MUnsync of ucfg * urun
@@ -287,6 +310,7 @@ let process (ic : in_channel) =
                | None -> (s, "")) kvs in
            (match List.assoc_opt "kind" kv with
             | Some "sketch" -> mode := MSketch sk_empty
+            | Some "config" -> mode := MConfig
             | Some "sync" ->
               let c = { sc_cap = opt_of_string (assoc_def "cap" kv "none");
                         sc_ttl = opt_of_string (assoc_def "ttl" kv "none");
@@ -307,6 +331,7 @@ let process (ic : in_channel) =
            (match !mode with
             | MNone -> failwith "operation before cfg"
             | MDead -> ()
+            | MConfig -> Printf.printf "%d %s -> %s | -\n" !idx line (run_config_op toks)
             | MSync (_, _) when toks = [ "DROP" ] ->
               Printf.printf "%d %s -> - | dropped live=0:0\n" !idx line;
               mode := MDead
